@@ -554,24 +554,24 @@ def abstract_macros(rng, roots):
     macros = []
     counter = [0]
 
-    def visit(nodes, depth):
+    def visit(nodes, depth, parent=""):
         out = []
         i = 0
         while i < len(nodes):
             n = nodes[i]
-            if depth > 0 and rng.random() < 0.25 and n.text.split()[0] not in ("Protocol", "Method", "Params", "Result", "Tags", "OperationId"):
+            if depth > 0 and parent not in ("TAG", "Method") and rng.random() < 0.25 and n.text.split()[0] not in ("Protocol", "Method", "Params", "Result", "Tags", "OperationId"):
                 ln = rng.randint(1, min(2, len(nodes) - i))
                 run = nodes[i:i + ln]
                 if all(r.text.split()[0] not in ("Protocol", "Method", "Params", "Result", "Tags", "OperationId", "TAG", "JSIGHT", "MACRO") for r in run):
                     name = "@mc%d" % counter[0]
                     counter[0] += 1
                     for r in run:
-                        r.children = visit(r.children, depth + 1)
+                        r.children = visit(r.children, depth + 1, r.text.split()[0])
                     macros.append(Node("MACRO " + name, run, explicit=True))
                     out.append(Node("PASTE " + name))
                     i += ln
                     continue
-            n.children = visit(n.children, depth + 1)
+            n.children = visit(n.children, depth + 1, n.text.split()[0])
             out.append(n)
             i += 1
         return out
